@@ -7,6 +7,7 @@ import os
 import re
 
 import common
+import pyir_circuit
 import pyir_translate
 
 THEOREMS = ["consume_ir_correct", "remaining_ir_correct", "init_ir_correct", "ir_run_correct"]
@@ -42,3 +43,52 @@ def budget_tie(chk):
                 "ir": {k: v[2] for k, v in meths.items()}}
     return {"ok": True, "stage": "done", "theorems": THEOREMS, "closed_under_global_context": closed, "seconds": round(wall, 1),
             "methods": sorted(meths)}
+
+
+CIRCUIT_THEOREMS = ["state_ir_correct", "allow_ir_correct", "record_success_ir_correct", "record_failure_ir_correct",
+                    "record_cancel_ir_correct", "krun_ir_correct"]
+
+
+def circuit_tie(chk):
+    """circuit.py -> PyIRH terms + obligations (coq/templates/CircuitIRProofs.v.in): the translated allow / record_success /
+    record_failure / record_cancel / state (with _note_failure, _prune, _clear_failures) compute Breaker.v's functions on every
+    state related by [Rel], hence every history computes Breaker.krun."""
+    out = os.path.join(chk.workdir, "CircuitIR.v")
+    tpl = os.path.join(common.COQ, "templates", "CircuitIRProofs.v.in")
+    try:
+        meths, used = pyir_circuit.generate(os.path.join(common.REPO, "src"), out, tpl)
+    except pyir_translate.TranslationError as e:
+        return {"ok": False, "stage": "translate", "detail": f"redress/circuit.py is outside the translated fragment: {e}"}
+    except (OSError, SyntaxError) as e:
+        return {"ok": False, "stage": "translate", "detail": f"redress/circuit.py could not be read: {e}"}
+    rc, stdout, stderr, wall = common.run(["coqc", "-Q", common.THEORIES, "Redress", "-w", "none", out], 900, cwd=chk.workdir)
+    closed = stdout.count("Closed under the global context")
+    if rc != 0:
+        where = ""
+        m = re.search(r"line (\d+)", stderr)
+        if m:
+            lines = open(out).read().split("\n")
+            for k in range(int(m.group(1)) - 1, -1, -1):
+                mm = re.match(r"\s*(Lemma|Theorem)\s+(\w+)", lines[k])
+                if mm:
+                    where = mm.group(2)
+                    break
+        return {"ok": False, "stage": "proof", "theorem": where or "CircuitIR.v",
+                "detail": f"obligation {where or '?'} on the translated source no longer checks: {stderr.strip()[-600:]}",
+                "ir": {k: v[1] for k, v in meths.items()}}
+    return {"ok": True, "stage": "done", "theorems": CIRCUIT_THEOREMS, "closed_under_global_context": closed, "seconds": round(wall, 1),
+            "methods": sorted(meths), "event_names": used, "not_translated": ["__init__"]}
+
+
+def report(chk, tie, name, searched):
+    """shared bookkeeping: coverage, obligations, and the violation when the tie is broken and nothing else was found"""
+    chk.coverage["source_translation"] = {k: v for k, v in tie.items() if k != "ir"}
+    n = len(tie.get("theorems") or (CIRCUIT_THEOREMS if name == "circuit" else THEOREMS))
+    chk.coverage["obligations"] = chk.coverage.get("obligations", 0) + n
+    if tie["ok"]:
+        chk.coverage["discharged"] = chk.coverage.get("discharged", 0) + n
+        mod = "CircuitIR" if name == "circuit" else "BudgetIR"
+        chk.coverage["theorems"] = list(chk.coverage.get("theorems", [])) + [f"{mod}.{t}" for t in tie["theorems"]]
+    elif not chk.violations:
+        chk.violation({"kind": "source-translation", "what": tie["detail"], "stage": tie["stage"],
+                       "theorem": tie.get("theorem", "fail-closed translator"), "ir": tie.get("ir"), "searched": searched}, no_input=True)
